@@ -786,7 +786,9 @@ static void scan(scanner_t *scnp)
 	    {
 		long value = strtol(scnp->scn_text, NULL, 10);
 
-		if (value > INT_MAX) {	/* would wrap into another index */
+		if (value >= INT_MAX) {	/* no list is that long; larger
+					   values would wrap into another
+					   index */
 		    scnp->scn_token = T_ERROR;
 		    return;
 		}
